@@ -49,6 +49,11 @@ CHECKS = [
   'level': 'For all coefficient values and states: _hamiltonian_rhs, hamsys.rhs and the dH_dQ/dH_dP evaluators equal (dH/dP, -dH/dQ); each *_ham step kernel equals its generic twin for an arbitrary field; '
            'generic and Hamiltonian drivers (fixed, RK45, DOP853, with and without events) produce identical traces and results on every explored path; integrate() dispatches on the runtime protocol; one compiled-build evaluation of hamsys.rhs.',
   'note': 'H of degree <= 3 with 13 symbolic coefficients; driver product runs unwound to 2 kernel calls (DOP853: 1; 3 thorough) in state dimension 1 with shared uninterpreted kernels/helpers; zero-skip guards explored on the generic side'},
+ {'id': 'C06',
+  'technique': 'QF_BV queries on the real packing kernels; symbolic execution of the polynomial kernels on symbolic coefficients against an independent dictionary algebra (normal-form/z3 residuals); symbolic thread ids for the prange kernels (z3 over all assignments)',
+  'level': 'Packing: decode(pack(k)) = k for all fields, injective per degree, table = bijection onto the multi-indices (exhaustive to the stated degree). Algebra: add, scale, multiply, power, differentiate, integrate, Poisson bracket, '
+           'evaluate, Jacobian, linear/affine substitution return the mathematically defined coefficients for all coefficient values (real and complex). Schedules: no conflicting accesses and schedule-independent reduction for every assignment of 3 thread ids.',
+  'note': 'operand degrees <= 2 with 5-6 symbolic coefficients (products to degree 4; 6 thorough), substitution degree <= 3; table enumeration to degree 14 (30 thorough); zero-skip guards and cleaning thresholds on the generic side; FP re-association outside the claim'},
 ]
 _BUILT = {c['id'] for c in CHECKS}
 NOT_APPLICABLE = [
